@@ -72,7 +72,7 @@ func rootsFor(eng *Engine, tag string) []root {
 		if fn.Parent() != nil {
 			continue // closures are reached through their parents (inlined) or havocked
 		}
-		if eng.callsAnyDeep(fn, want, map[*ssa.Function]bool{}) || eng.updatesTaggedMap(fn, tag) || eng.touchesGuarded(fn, tag) {
+		if eng.callsAnyDeep(fn, want, map[*ssa.Function]bool{}) || eng.updatesTaggedMap(fn, tag) || eng.touchesGuarded(fn, tag) || eng.convertsTagged(fn, tag) {
 			add(fn, eng.specForFn(fn))
 		}
 	}
@@ -160,6 +160,7 @@ func cmdCheck(args []string) int {
 	timeout := 20
 	if *tier == "thorough" {
 		timeout = 90
+		crossCheckAll = true // every answer is cross-checked by the other solvers (20 s each)
 	}
 	ld, err := Load(*repo, filepath.Join(*verif, "contracts/trusted"), nil)
 	if err != nil {
@@ -282,6 +283,11 @@ func (r *Report) finish() int {
 			}
 			if isKnown {
 				ev["known_finding"] = true
+				continue
+			}
+			if sr.Status == "solver-disagreement" {
+				lines = append(lines, fmt.Sprintf("BROKEN: the solvers disagree on %s (%s): nothing is concluded from it", sr.Name, sr.Detail))
+				exit = 2
 				continue
 			}
 			allErr := len(sr.All) > 0
